@@ -748,10 +748,11 @@ func ruleSnapshotCount(r *Report) {
 		}
 		okW := false
 		if chunkFn != nil && colFn != nil {
-			w1 := callsTo(chunkFn, false, "(*iostream.Writer).WriteSelf")
-			w2 := callsTo(colFn, false, "(*iostream.Writer).WriteSelf")
+			w1 := callsToDeep(chunkFn, false, "(*iostream.Writer).WriteSelf") // the insert markers, possibly through a helper
+			w2 := sitesOf(callsToDeep(colFn, false, "(*iostream.Writer).WriteSelf"))
 			ru := callsTo(chunkFn, false, "(*column.columns).RangeUntil")
-			okW = len(w1) == 1 && len(w2) == 1 && len(ru) == 1 && !reachAvoiding(w1[0].Block(), w1[0].Block(), nil, nil)
+			okW = len(w1) == 1 && len(w2) == 1 && len(ru) == 1 && !reachAvoiding(w1[0].Site.Block(), w1[0].Site.Block(), nil, nil) &&
+				!reachAvoiding(w1[0].Inner.Block(), w1[0].Inner.Block(), nil, nil)
 			if okW {
 				okW = edgeGuarded(w2[0].Block(), func(c ssa.Value) (bool, bool) {
 					cl, ok := c.(*ssa.Call)
